@@ -67,6 +67,16 @@ def place_fields(p):
     return [e[1] for e in p["p"] if e != "*" and e[0] == "f"]
 
 
+def _operands_of(rv):
+    k = rv[0]
+    if k == "Use": return [rv[1]]
+    if k == "Bin": return [rv[2], rv[3]]
+    if k in ("Un", "Cast"): return [rv[2]]
+    if k == "Repeat": return [rv[1]]
+    if k == "Agg": return list(rv[2])
+    return []
+
+
 class Body:
     def __init__(self, f):
         self.f = f
@@ -282,6 +292,47 @@ class Body:
     def single_def(self, l):
         ds = [d for d in self.defs.get(l, []) if d[0] in self.reachable]
         return ds[0] if len(ds) == 1 else None
+
+    # -------------------------------------------------------------------------------------- move state
+    def maybe_init_at_term(self, l):
+        """blocks at whose terminator local `l` may still be initialised (forward may-analysis over whole-local moves).
+        mir_built keeps `drop(x)` terminators for values that were moved out; those drops are no-ops."""
+        def stmt_effect(st, cur):
+            if st[0] != "A": return cur
+            for o in _operands_of(st[2]):
+                if o[0] == "m" and not o[1]["p"] and o[1]["l"] == l: cur = False
+            if not st[1]["p"] and st[1]["l"] == l: cur = True
+            return cur
+        init_in = {0: (1 <= l <= self.f["argc"])}
+        out = {}
+        work = [0]
+        while work:
+            b = work.pop()
+            cur = init_in[b]
+            for st in self.stmts(b):
+                cur = stmt_effect(st, cur)
+            at_term = cur
+            t = self.term(b)
+            if t[0] == "Call":
+                for a in t[1]["args"]:
+                    if a[0] == "m" and not a[1]["p"] and a[1]["l"] == l: cur = False
+                at_term = cur if False else at_term
+                if not t[1]["dst"]["p"] and t[1]["dst"]["l"] == l: cur = True
+            elif t[0] == "Drop" and not t[1]["p"] and t[1]["l"] == l:
+                cur = False
+            elif t[0] == "Yield" and t[1][0] == "m" and not t[1][1]["p"] and t[1][1]["l"] == l:
+                cur = False
+            out[b] = out.get(b, False) or at_term
+            for s in self.succ(b):
+                if s not in init_in or (cur and not init_in[s]):
+                    init_in[s] = init_in.get(s, False) or cur
+                    work.append(s)
+        return {b for b, v in out.items() if v}
+
+    def live_drops(self, l):
+        """Drop terminators of local l (whole) that can actually run a destructor"""
+        mi = self.maybe_init_at_term(l)
+        return [b for b in self.reachable if self.term(b)[0] == "Drop" and not self.term(b)[1]["p"] and self.term(b)[1]["l"] == l and b in mi]
 
     # -------------------------------------------------------------------------------------- calls
     @functools.cached_property
